@@ -7,6 +7,7 @@
       notesmaster  a tree, or a single minus sign when the deck has none
       ops          one field each:
                      A l | N s | X s x y cx cy            add slide / notes slide / text box
+                     P s l i                               clone placeholder i of layout l onto slide s
                      E tgt a b e ...                       edit; tgt: s a=slide b=shape, n notes,
                                                            l layout, m master, k notes master (a unused)
                        e = S attr v (attr 0..3) | C | R cp cp ... | D
@@ -130,6 +131,11 @@ Definition parse_op (f : str) : option op :=
       match parse_nat s, parse_Z x, parse_Z y, parse_Z cx, parse_Z cy with
       | Some s, Some x, Some y, Some cx, Some cy => Some (AddTextbox s x y cx cy)
       | _, _, _, _, _ => None
+      end
+  | [[80%N]; s; l; i] =>                                        (* P s l i *)
+      match parse_nat s, parse_nat l, parse_nat i with
+      | Some s, Some l, Some i => Some (ClonePh s l i)
+      | _, _, _ => None
       end
   | [69%N] :: k :: a :: b :: e =>                               (* E tgt a b edit *)
       match parse_target k a b, parse_edit e with
